@@ -122,6 +122,11 @@ def directed_sender():
     L.append("snd 8 2 5000 1 0 - A1@0")
     L.append("snd 8 2 5000 1 0 gen:16:1 A2@0 A3@0")
     L.append("snd 8 1 5000 3 0 gen:8:1 A1@0 A2@0")
+    # windows wider than one vectored read/write takes (IOV_MAX = 1024): refills and bursts of more than 1024 blocks
+    L.append("snd 8 1500 5000 1 0 gen:20003:5 A1500@0 A2501@0")
+    L.append("snd 8 1025 5000 1 0 gen:16400:6 A1025@0 A2050@0 A2051@0")
+    L.append("snd 2 2048 5000 1 0 gen:9001:7 A2048@0 A2050@0 A4098@0 A4501@0")
+    L.append("snd 8 4000 5000 1 0 gen:12000:8 A10@0 A1501@0")
     return L
 
 
@@ -175,6 +180,13 @@ def directed_receiver():
     L.append("rcv 8 2 1 0 full D1:0102030405060708 E")
     L.append("rcv 8 1 1 1 full D1:-")
     L.append("rcv 8 3 2 1 full D1:0102030405060708 D2:0102030405060708 D3:0102030405060708 D4:01")
+    # windows wider than one vectored write takes (IOV_MAX = 1024): a flush of more than 1024 buffered blocks
+    def run(lo, hi, b):
+        return " ".join("D%d:%s" % (k % 65536, "".join("%02x" % ((k * 7 + i) & 255) for i in range(b))) for k in range(lo, hi + 1))
+    L.append("rcv 8 1100 1 1 full %s D1101:0102" % run(1, 1100, 8))
+    L.append("rcv 2 1025 1 1 full %s D2051:-" % run(1, 2050, 2))
+    L.append("rcv 2 4000 1 1 full %s D1501:07" % run(1, 1500, 2))
+    L.append("rcv 2 2000 1 1 full %s D5:0101 %s D1301:-" % (run(1, 1200, 2), run(1201, 1300, 2)))
     return [" ".join(l.split()) for l in L]
 
 
